@@ -43,18 +43,29 @@ OpsChoices(f, i) ==
        IN {<<h>> \o t : h \in heads, t \in OpsChoices(f, i + 1)}
 
 Items(S) == UNION {{[k |-> "ins", f |-> f, ops |-> o, bytes |-> <<>>, tgt |-> 0] : o \in OpsChoices(f, 1)} : f \in S}
-DataItems == {[k |-> "data", f |-> "", ops |-> <<>>, bytes |-> [i \in 1..n |-> RandomElement(0..255)], tgt |-> 0] : n \in 1..4}
-VecItems == IF WithVectors THEN {[k |-> "vec", f |-> "", ops |-> <<>>, bytes |-> <<>>, tgt |-> j] : j \in 1..MaxItems} ELSE {}
+DataItems == {[k |-> "data", f |-> [id |-> "data"], ops |-> <<>>, bytes |-> [i \in 1..n |-> RandomElement(0..255)], tgt |-> 0] : n \in 1..4}
+VecItems == IF WithVectors THEN {[k |-> "vec", f |-> [id |-> "vec"], ops |-> <<>>, bytes |-> <<>>, tgt |-> j] : j \in 1..MaxItems} ELSE {}
 
 PrevNoFall == Len(prog) > 0 /\ prog[Len(prog)].k = "ins" /\ NoFall(prog[Len(prog)].f)
 PrevIsData == Len(prog) > 0 /\ prog[Len(prog)].k # "ins"
 
 Init == prog = <<>> /\ org \in Orgs
 
+\* one random item per step (TLC -simulate draws the random numbers).  A category is drawn first so that data,
+\* vectors, terminators and branches/calls are frequent enough; inside a category every form of the table has
+\* the same weight per operand tuple, a branch form one tuple per possible target item.
+NoFallForms == {f \in FormsG : NoFall(f)}
+FlowForms == {f \in FormsG : f.flow \in {"cond", "call"}}
+Choices ==
+  LET c == RandomElement(1..20) IN
+  IF Len(prog) = MaxItems - 1 THEN Items(NoFallForms)
+  ELSE IF (PrevNoFall \/ PrevIsData) /\ c <= 8 THEN (IF c <= 4 \/ ~WithVectors THEN DataItems ELSE VecItems)
+  ELSE IF c <= 11 THEN Items(NoFallForms)
+  ELSE IF c <= 15 THEN Items(FlowForms)
+  ELSE Items(FormsG)
+
 Next == /\ Len(prog) < MaxItems
-        /\ \E it \in (IF Len(prog) = MaxItems - 1 THEN Items({f \in FormsG : NoFall(f)})
-                      ELSE Items(FormsG) \cup (IF PrevNoFall \/ PrevIsData THEN DataItems \cup VecItems ELSE {})) :
-              prog' = Append(prog, it)
+        /\ prog' = Append(prog, RandomElement(Choices))
         /\ UNCHANGED org
 
 \* ---------------------------------------------------------------------------------- layout and image
